@@ -640,6 +640,18 @@ func run(out, tier string, seed int64) {
 	m.Rule = "universe = the C07 universe (all nine kinds, width<=2 depth<=2 containers, seeded random values) + objects with delimiter keys + same objects in other insertion orders + keys that splice whole members into a key + the pairs {a:v,b:w} / {\"a:\"+le64(hash v)+\",b\": w} that collide when keys are hashed without their length, derived from the implementation's own hash for several v, w (they must hash differently and survive every de-duplicating construct); one evaluation = one unordered pair (hash-equal? vs structurally identical?, for Value.Hash, for MapHash of {k: v}, and for MapHash of the member maps of two objects), one insertion permutation, one Copy/Clone, or one de-duplicating construct on one array; non-trivial = the pair's two renderings differ / the array has at least one planted duplicate; distinct = distinct rendered pairs + distinct (construct, input) texts"
 	vals := Universe(rng, nRandom, tier)
 	vals = append(vals, extraValues(rng, nWitness)...)
+	// large binaries that differ in one byte far from both ends (and an equal copy): a hash
+	// that samples its input merges them.  Written to the model in closed form.
+	compact := map[int]string{}
+	for _, bb := range [][3]int{{9001, 4500, 1}, {9001, 4500, 2}, {9001, 4500, 1}, {8193, 4200, 3}, {8193, 4200, 4}, {70000, 35000, 5}, {70000, 35001, 5}} {
+		b := make([]byte, bb[0])
+		for i := range b {
+			b[i] = 7
+		}
+		b[bb[1]] = byte(bb[2])
+		compact[len(vals)] = fmt.Sprintf("(VBin (List.repeat 7%%N (N.to_nat %d) ++ [%d%%N] ++ List.repeat 7%%N (N.to_nat %d)))", bb[1], bb[2], bb[0]-bb[1]-1)
+		vals = append(vals, values.NewBinary(b))
+	}
 	u := newUniverse(vals)
 	for _, v := range vals {
 		m.Count("kind:" + KindOf(v))
@@ -656,6 +668,9 @@ func run(out, tier string, seed int64) {
 		sep := ";"
 		if i == len(vals)-1 {
 			sep = ""
+		}
+		if c, ok := compact[i]; ok {
+			r = c
 		}
 		fmt.Fprintf(w, " %s%s\n", r, sep)
 	}
